@@ -219,7 +219,7 @@ def call_builtin(eng, name, bound_self, args, kwargs, st, fr, k, node=None):
     if name == "re.finditer":
         # the splitter's mark iterator: a ghost cursor over the mark arrays (contract A-RE)
         st.heap.set(("g", "cur", "int"), z3.IntVal(0))
-        return k(st, SRef(z3.IntVal(-7), "iter:marks"))
+        return k(st, SRef(z3.IntVal(7), "iter:marks"))
     raise _err(f"builtin {name} not modelled")
 
 
